@@ -133,7 +133,8 @@ def short(v):
 def build_file(x, nodes, rng, wide=False):
     tables, fobjs, lay = E.plan_tables(nodes, ntables_free=set(x["free"]), stale=set(x["stale"]), newer_first=x["newerFirst"],
                                        pad_rng=rng if rng.random() < 0.5 else None, flag_rng=rng if rng.random() < 0.6 else None,
-                                       far=rng.choice([0x20000, (1 << 32) + 0x5000] if wide else [0, 0, 0, (1 << 32) + 0x5000, (3 << 32) + 0x1000]))   # objects beyond 4 GiB
+                                       far=rng.choice([0x20000, (1 << 32) + 0x5000] if wide else [0, 0, 0, (1 << 32) + 0x5000, (3 << 32) + 0x1000]),   # objects beyond 4 GiB
+                                       emptied=rng.choice([(), (), (900,), (901, 902)]))
     hi, lo = rng.choice([(9, 4), (0x9000, 5), (0xFFFF, 1), (0x8001, 0), (2, 1)])
     seqs = (hi, lo) if x["hdr"] == 1 else (lo, hi)
     # key tables and file objects may be listed in a chain of object tables (any distribution, any order)
